@@ -256,7 +256,13 @@ func move(stagepath, destpath string) error {
 		// Oh!  Some content is already there?
 		//  We're a write-once (presumed-to-be-)content-addressable blob store -- that means *we keep what already exists*.
 		//  FIXME: no, I wish this is how the Rename function worked, but it is not, actually.
-		return os.Remove(stagepath)
+		//  (Rename replaces an existing file; "exists" is what it says when the destination is something
+		//  it will not replace, such as a non-empty directory.  So only call it success if a block is there.)
+		if fi, serr := os.Stat(destpath); serr == nil && fi.Mode().IsRegular() {
+			return os.Remove(stagepath)
+		}
+		os.Remove(stagepath)
+		return err
 	}
 	return err
 }
